@@ -47,7 +47,8 @@ var histRoutes = []string{"r", "n", "s", "t"}
 
 type hgen struct {
 	p *pgen
-	n int // running index: rotates routes, texts, cut positions deterministically
+	n int // running index: rotates texts, cut positions, the route of the earlier text deterministically
+	k int // rotates the route of the text under test where not all four are used
 }
 
 func (h *hgen) entry(route, mode string, again int, txt string, queued string) string {
@@ -82,7 +83,7 @@ func (h *hgen) single(txt string, routes []string, ntexts int, what string) {
 				h.n++
 				t := histTexts[h.n%len(histTexts)]
 				// the route by which the earlier text itself arrives rotates as well
-				hr := histRoutes[(h.n/3)%len(histRoutes)]
+				hr := histRoutes[(h.n/7)%len(histRoutes)]
 				again := 0
 				queued := ""
 				switch h.n % 11 {
@@ -179,8 +180,8 @@ func genParseHist(g *Gen, p *pgen) {
 			}
 			rs := histRoutes
 			if n == 4 {
-				h.n++
-				rs = []string{histRoutes[h.n%4]}
+				h.k++
+				rs = []string{histRoutes[h.k%4]}
 			}
 			h.single(strings.Join(seq, " "), rs, nt, "exhaustive small-alphabet history")
 			if n <= 2 {
@@ -202,8 +203,8 @@ func genParseHist(g *Gen, p *pgen) {
 		k := 0
 		enumerateToks(histSmallAlpha, 4, func(seq []string) {
 			if k%step == i {
-				h.n++
-				h.single(strings.Join(seq, " "), []string{histRoutes[h.n%4]}, 1, "sampled length-4 small-alphabet history")
+				h.k++
+				h.single(strings.Join(seq, " "), []string{histRoutes[h.k%4]}, 1, "sampled length-4 small-alphabet history")
 			}
 			k++
 		})
@@ -211,10 +212,10 @@ func genParseHist(g *Gen, p *pgen) {
 	// 2. the larger alphabet, length <= 2
 	for n := 1; n <= 2; n++ {
 		enumerateToks(histBigAlpha, n, func(seq []string) {
-			h.n++
+			h.k++
 			rs := histRoutes
 			if n == 2 {
-				rs = []string{histRoutes[h.n%4], histRoutes[(h.n+1)%4]}
+				rs = []string{histRoutes[h.k%4], histRoutes[(h.k+1)%4]}
 			}
 			h.single(strings.Join(seq, " "), rs, 1, "exhaustive big-alphabet history")
 		})
@@ -223,8 +224,8 @@ func genParseHist(g *Gen, p *pgen) {
 	nest := h.nested(g.Thorough())
 	for i, t := range nest {
 		if g.Thorough() || (i+int(g.Seed))%5 == 0 {
-			h.n++
-			h.single(t, []string{histRoutes[h.n%4]}, 1, "nested-bracket history")
+			h.k++
+			h.single(t, []string{histRoutes[h.k%4]}, 1, "nested-bracket history")
 		}
 	}
 	// 4. histories of 2 and 3 earlier texts
